@@ -781,6 +781,8 @@ var dRichSegs = []dPath{
 	{text: "/{n: /[0-9]+/}", long: "/42"}, {text: "/{s: /[a-z]+/}", long: "/abc"},
 	{text: "/u-{x}", long: "/u-7"}, {text: "/{w: **}", long: "/m1/m2"}, {text: "/{**}", long: "/m3"},
 	{text: "/", long: "/"}, {text: "", long: ""}, {text: "c", long: "c"}, {text: "/{", long: "/{"},
+	// slashes on both sides of a joint between a group's path and what is declared inside it (two, three or more in a row)
+	{text: "/g/", long: "/g/"}, {text: "//b", long: "//b"}, {text: "/h//", long: "/h//"},
 }
 
 func (g *dGen) path(abs int, group bool) (dPath, int) {
@@ -1130,8 +1132,13 @@ func genDslSlice(r *rand.Rand, emit Emit, n int) {
 	g := &dGen{r: r, mode: "m"}
 	for i := 0; i < n; i++ {
 		g.mode, g.next = "m", 0
+		if i%3 == 2 {
+			// rich paths (binds, empty segments, slashes at the joints of groups): the program against its own flat
+			// expansion on the real code
+			g.mode = "x"
+		}
 		prog := g.block(0, 0, dPath{}, 1+r.Intn(5))
-		dEmitSession(emit, "m", r.Intn(2), prog)
+		dEmitSession(emit, g.mode, r.Intn(2), prog)
 	}
 }
 
